@@ -408,6 +408,12 @@ Proof.
   - apply IH. exact Hk.
 Qed.
 
+Lemma run_model El bs s k b :
+  snd (run El s bs) = fold_left (step El) bs s /\
+  (nth_error bs k = Some b ->
+   nth_error (fst (run El s bs)) k = Some (Wstar El (fold_left (step El) (firstn k bs) s) b)).
+Proof. split; [apply run_state|apply run_outputs]. Qed.
+
 (* ---------------------------------------------------------------- no re-accumulation *)
 (* entries chosen from the queue are never in the accumulated history, given the queue invariant *)
 Lemma no_reacc_queue m s avail w :
